@@ -361,7 +361,7 @@ def shrink_candidates(c):
 def run(ctx):
     proof = core.coq_properties("C07")
     ctx.say("proof stage: ok=%s theorems=%d audit=%d (%.1fs)" % (proof["ok"], len(proof["theorems"]), len(proof["audit"]), proof.get("wall_s", 0)))
-    n = ctx.scale(2000, 60000)
+    n = ctx.scale(2000, 20000)
     cases = [gen_case(ctx.rng) for _ in range(n)]
     cov = core.differential(ctx, "fsm", proof, cases, sim_line, oracle, norm_impl=norm_impl, norm_model=norm_model,
                             model_line_of=model_line, shrink_candidates=shrink_candidates,
@@ -369,9 +369,36 @@ def run(ctx):
                             more_cases=lambda: [gen_case(ctx.rng) for _ in range(n)],
                             correspondence_name="fsmHandler.idle/active/opensent/openconfirm/established + recvMessageloop + changeadminState vs Session.Fsm.step",
                             impl_spec=IMPL_SPEC, model_name="fsm")
+    # connection collision: which connection survives (fsm.isDominant on a fresh fsm, through the C08 harness) vs
+    # Session.Negotiate.dominant; theorems C07_collision_one_winner / C07_collision_higher_identifier_wins
+    from checks import c08
+    import re as _re
+
+    def dom_of(c, out):
+        m = _re.search(r"\(dom ([01])\)", out)
+        return m.group(0) if m else "no-collision-decision " + out[:60]
+
+    def dom_oracle(c, out):
+        if not out.startswith("ok "):
+            return ("panic-or-error", out[:120])
+        m = _re.search(r"\(dom ([01])\)", out)
+        k, o = c["conf"], c["open"]
+        ras = o["asf"]
+        for cp in o["caps"]:
+            if cp.startswith("(as4"):
+                ras = int(cp[5:-1])
+        want = 1 if (k["id"] > o["id"] or (k["id"] == o["id"] and k["las"] > ras)) else 0
+        if not m or int(m.group(1)) != want:
+            return ("collision-winner", "isDominant = %s for local identifier %d / AS %d against %d / AS %d" % (m.group(1) if m else "?", k["id"], k["las"], o["id"], ras))
+        return None
+    ccases = [c08.gen_case(ctx.rng) for _ in range(ctx.scale(3000, 60000))]
+    cov2 = core.differential(ctx, "c08", proof, ccases, c08.line_of, dom_oracle, norm_impl=dom_of, norm_model=dom_of, model_line_of=c08.model_line,
+                             nontrivial=lambda c: True, correspondence_name="fsm.isDominant vs Session.Negotiate.dominant (connection collision)", model_name="c08")
+    for kk in ("evaluations", "distinct_nontrivial", "traces_validated_against_impl"):
+        cov[kk] = cov.get(kk, 0) + cov2.get(kk, 0)
     pc = core.proof_coverage(proof)
     pc.update(cov)
-    evc = {}
+    evc = {"collision-decisions": len(ccases)}
     for c in cases:
         for e in c["events"]:
             evc[e[0]] = evc.get(e[0], 0) + 1
@@ -382,7 +409,7 @@ def run(ctx):
                 "configured hold 9/30/90 x prefix limit none/2; non-trivial = at least 6 events; distinct by line",
         "trusted_base": core.TRUSTED_COMMON + ["go/overlay/internal/verif/sim (synctest virtual clock; whole seconds)", "Python reference of the RFC reaction table in checks/c07.py"],
     })
-    return ctx.finish(pc, ["passive side only: the outgoing connection manager (active open) and collision resolution are not modelled nor exercised",
+    return ctx.finish(pc, ["passive side only for the state machine itself; the collision DECISION (which connection survives) is modelled and compared separately: the outgoing connection manager (active open) and collision resolution are not modelled nor exercised",
                            "one event at a time; instants are whole seconds of the synctest clock",
                            "a KEEPALIVE due at the very instant of a hold-timer expiry is not compared (two timers firing together)"])
 
